@@ -374,6 +374,26 @@ def c02_aero_struct(rng, tier):
     if not ok:
         out.append(_fail("SpatialBeamAlone: forward and reverse totals differ after the design changed on a live problem",
                          msg, "equal", ny=s["mesh"].shape[1], symmetry=s["symmetry"]))
+    # two problems built from the same script (identical path names), another stiffness in the second: the totals of the first
+    # must be those of its own converged analysis although the second was analysed between its run_model and compute_totals
+    mode = str(rng.choice(["fwd", "rev"]))
+    pa = pipelines.build_struct_alone(s)
+    s2 = dict(s); s2["thickness_cp"] = s["thickness_cp"] * 2.3
+    pb = pipelines.build_struct_alone(s2)
+    pref = pipelines.build_struct_alone(s)
+    with quiet():
+        pa.setup(mode=mode); pb.setup(mode=mode); pref.setup(mode=mode)
+        pref.run_model(); Jref = pref.compute_totals(of=ofs2, wrt=wrt2, return_format="array")
+        pa.run_model()
+        pb.run_model(); pb.compute_totals(of=ofs2, wrt=wrt2)
+        Ja = pa.compute_totals(of=ofs2, wrt=wrt2, return_format="array")
+    fv = np.concatenate([np.atleast_1d(pa.get_val(o)).ravel() for o in ofs2])
+    xv = np.concatenate([np.atleast_1d(pa.get_val(w)).ravel() for w in wrt2])
+    ok, msg = core.close_jac(Ja, Jref, rtol=1e-7, fvals=fv, xvals=xv, noise=1e-9)
+    if not ok:
+        out.append(_fail("SpatialBeamAlone: totals of a problem change when another problem (same path names, other stiffness) is "
+                         "analysed between its run_model and compute_totals", msg, "equal", mode=mode, ny=s["mesh"].shape[1],
+                         symmetry=s["symmetry"]))
     return out
 
 
@@ -489,6 +509,21 @@ def c12_multipoint(rng, tier):
     Fr = np.array(pr.get_val("AS_point_0.coupled.aero_states.wing_sec_forces")); Fa = np.array(pa.get_val("pt.aero_states.wing_sec_forces"))
     if relerr(Fr, Fa) > 1e-4:
         out.append(_fail("a very stiff structure does not reproduce the rigid aerodynamic analysis", Fr[0, :2], Fa[0, :2], beta=beta, **case))
+    # independent problems in one process: the single-point problem analysed earlier is visited again (new angle of attack, its own
+    # structure unchanged) after a problem with the same surface name but another stiffness has been analysed in between
+    sfx1 = ""        # single-point problems of pipelines.build_aerostruct use unsuffixed names
+    a_new = f1["alpha"] + 0.7
+    with quiet():
+        p1.set_val("alpha" + sfx1, a_new); p1.run_model()
+    pf = pipelines.build_aerostruct([s], [dict(f1, alpha=a_new)])
+    with quiet():
+        pf.run_model()
+    keys = ("CL", "CD", "fuelburn", "L_equals_W")
+    a = np.array([p1.get_val("AS_point_0." + o)[0] for o in keys]); b = np.array([pf.get_val("AS_point_0." + o)[0] for o in keys])
+    da = np.array(p1.get_val("AS_point_0.coupled.wing.disp")); db = np.array(pf.get_val("AS_point_0.coupled.wing.disp"))
+    if relerr(a, b) > 1e-7 or relerr(da, db) > 1e-7:
+        out.append(_fail("a problem revisited after another problem (same surface name, other stiffness) was analysed differs from a fresh analysis",
+                         [a.tolist(), float(np.max(np.abs(da)))], [b.tolist(), float(np.max(np.abs(db)))], **case))
     return out
 
 
